@@ -77,7 +77,8 @@ Print Assumptions derived_from_satisfying_credential.
    limit-disclosure-reveals-unrequested-member/subject-held-as-map, pinned by the package's example tests. *)
 Definition limited_only_requested_statement : Prop := forall v p creds d w k,
   derives v p creds d w -> d_constraints d = Some k -> k_limit k = true ->
-  forall a, In a (map fst (c_attrs (w_cred w))) -> exists f, In f (k_fields k) /\ In a (f_paths f).
+  forall a, In a (map fst (c_attrs (w_cred w))) ->
+  exists f q, In f (k_fields k) /\ In q (f_paths f) /\ (q = a \/ path_base q = a).
 
 Definition raw_cred : cred :=
   {| c_id := 1; c_issuer := 50; c_subject := 50; c_types := [1]; c_proofs := []; c_jwt := 0; c_sd := false;
@@ -93,13 +94,13 @@ Proof.
   intros H.
   set (k := {| k_limit := true; k_sii := false;
                k_fields := [{| f_paths := [1]; f_filter := None; f_optional := false; f_pred := false |}] |}).
-  set (w := {| w_key := KTmp 1 0; w_src := 0%nat; w_cred := limited_cred k raw_cred |}).
+  set (w := {| w_key := KTmp 1 0; w_src := 0%nat; w_cred := limited_cred Fixed k raw_cred |}).
   assert (D : derives Fixed {| p_format := None; p_reqs := []; p_descs := [limit_a1] |} [raw_cred] limit_a1 w).
   { exists raw_cred. split; [reflexivity|]. split.
     - split; [intros _; reflexivity|]. intros k' Hk. inversion Hk; subst. reflexivity.
     - left. split; [reflexivity|]. exists k. split; [reflexivity|]. left. split; reflexivity. }
-  destruct (H _ _ _ _ _ k D eq_refl eq_refl 2) as [f [F1 F2]]; [vm_compute; auto|].
-  destruct F1 as [F1|[]]. subst f. destruct F2 as [F2|[]]. discriminate.
+  destruct (H _ _ _ _ _ k D eq_refl eq_refl 2) as [f [q [F1 [F2 F3]]]]; [vm_compute; auto|].
+  destruct F1 as [F1|[]]. subst f. destruct F2 as [F2|[]]. subst q. destruct F3 as [F3|F3]; vm_compute in F3; discriminate.
 Qed.
 Print Assumptions limited_disclosure_only_requested_refuted.
 
@@ -108,7 +109,8 @@ Print Assumptions limited_disclosure_only_requested_refuted.
 Theorem limited_disclosure_only_requested_partial : forall v p creds d w k,
   derives v p creds d w -> d_constraints d = Some k -> k_limit k = true ->
   (forall c, nth_error creds (w_src w) = Some c -> c_rawsubj c = false) ->
-  forall a, In a (map fst (c_attrs (w_cred w))) -> exists f, In f (k_fields k) /\ In a (f_paths f).
+  forall a, In a (map fst (c_attrs (w_cred w))) ->
+  exists f q, In f (k_fields k) /\ In q (f_paths f) /\ (q = a \/ path_base q = a).
 Proof. exact limited_lemma. Qed.
 Print Assumptions limited_disclosure_only_requested_partial.
 
@@ -268,9 +270,9 @@ Example sdjwt_nonvacuous :
                d_format := None |} in
   let p := {| p_format := None; p_reqs := []; p_descs := [dl; dsimple 2 []] |} in
   let creds := [{| c_id := 7; c_issuer := 50; c_subject := 60; c_types := [1]; c_proofs := []; c_jwt := 1; c_sd := true;
-                   c_rawsubj := false; c_attrs := [(1, VStr 1); (2, VNum 2); (501, VStr 2); (502, VArr 7)] |}] in
+                   c_rawsubj := false; c_attrs := [(1, VStr 1); (2, VNum 2); (501, VStr 2); (502, VArr [VNum 7])] |}] in
   exists x, create_vp Fixed p creds = COk x /\
-            map c_attrs (vp_creds x) = [[(501, VStr 2)]; [(1, VStr 1); (2, VNum 2); (501, VStr 2); (502, VArr 7)]] /\
+            map c_attrs (vp_creds x) = [[(501, VStr 2)]; [(1, VStr 1); (2, VNum 2); (501, VStr 2); (502, VArr [VNum 7])]] /\
             exists l, verifier_match Fixed p false x = MOk l /\ map fst l = [1; 2].
 Proof. cbv zeta. eexists. split; [vm_compute; reflexivity|]. vm_compute. split; [reflexivity|]. eexists. split; reflexivity. Qed.
 
